@@ -96,6 +96,21 @@ NEEDS = {
  "C17f": "HELD-OUT: any gate with more than two inputs in an output cone",
  "C18f": "HELD-OUT: a loop that no output depends on (unobserved latch)",
  "C19f": "HELD-OUT: a circuit whose non-output nodes carry no `output` attribute (fast Verilog reader, Circuit(graph=g)) passed to any query that calls is_output",
+ "C01g": "HELD-OUT 2: solve/cnf, then an in-place change of a gate's type with unchanged wiring (set_type), then solve/cnf again on the SAME Circuit object (per-object CNF cache whose staleness test ignores types)",
+ "C03g": "HELD-OUT 2: two reads in one interpreter: a behavioral text that makes the reader invent and_a_b, later any text with a net of exactly that name (reader state gate_expressions/moved never cleared)",
+ "C04g": "HELD-OUT 2: explicit endpoints= and a c1 that has extra internal nets inside the compared cone (e.g. limit_fanin(c0, 2))",
+ "C05g": "HELD-OUT 2: a buf with more than k loads whose driver already has k loads and is visited before the buf; PYTHONHASHSEED dependent (6 of 12 seeds on the demo)",
+ "C06g": "HELD-OUT 2: fill_blackbox with an implementation that contains a non-io node without any edge (open pin of a nested blackbox, spare tie cell)",
+ "C07g": "HELD-OUT 2: a connection whose fan-out side names a missing node (connect(a, nowhere); add_subcircuit/add_blackbox with an output wired to a missing net): KeyError instead of ValueError bypasses the roll-back",
+ "C08g": "HELD-OUT 2: model_count with an assumption on a startpoint that drives nothing (feed-through input, unconnected blackbox output pin)",
+ "C09g": "HELD-OUT 2: sequential_unroll(remove_unloaded=True) of a circuit with a primary input that is also an output and drives nothing but non-data flop pins",
+ "C10g": "HELD-OUT 2: an and/nand/or/nor gate that reaches no marked output while some other node is marked as output",
+ "C11g": "HELD-OUT 2: influence/avg_sensitivity/sensitization_transform with endpoints on an internal node (or with another output in its cone), then sensitize/sensitization_transform without endpoints on the same object",
+ "C15g": "HELD-OUT 2: read a bench text, edit the returned circuit in place, read the same text (same name) again in the same interpreter",
+ "C16g": "HELD-OUT 2: any remove_unloaded(inputs=True) followed, in the same interpreter, by remove_unloaded(inputs=False) on a circuit with unloaded inputs / pins",
+ "C17g": "HELD-OUT 2: two outputs whose cones share a gate with more than two inputs, plus a look-alike helper name in one cone or a particular set order (PYTHONHASHSEED 5, 9 of 0..19)",
+ "C18g": "HELD-OUT 2: a cyclic circuit with a primary input that is also an output",
+ "C19g": "HELD-OUT 2: sensitization_transform / influence / avg_sensitivity with endpoints on an internal node or with another output in the endpoint's cone",
  "C18d": "(helper: Circuit.disconnect testing `u in us` with a single name, i.e. a substring test) a cut feedback node whose name contains the name of another driver of one of its loads (n12 / n1)",
  "C19c": "influence/avg_sensitivity with supergates=True and a peer failure in the middle (solver raises, pysat unimportable, approxmc missing or exit 1)",
  "C19": "tx.subcircuit asked for ALL nodes of a blackbox-free circuit (directly or through sensitization_transform / influence with an endpoint whose cone is the whole circuit), then any edit or the internal set_output",
@@ -124,7 +139,9 @@ def main():
         if not os.path.isfile(os.path.join(d, "patch.diff")) or (only and sid not in only):
             continue
         prop = sid[:3]
-        if sid.endswith("f"):
+        if sid.endswith("g"):
+            src2 = " (round 7, second held-out measurement: property text plus the list of all earlier changes not to repeat)"
+        elif sid.endswith("f"):
             src2 = " (round 6, held-out measurement: only the property text and the list of earlier changes not to repeat)"
         elif sid.endswith("b"):
             src2 = " (round 2: told which round-1 change not to repeat)"
